@@ -157,6 +157,88 @@ void vector_script(const char *tname, Rng &rng, int nops) {
   }
 }
 
+// ---------------------------------------------------------------- exception paths: an element whose k-th copy throws
+struct Boom {};
+struct TH {
+  static long live, copies, throw_at, bad_dtor;
+  int v;
+  unsigned magic;
+  TH(int x = 0) : v(x), magic(0x600DF00Du) { ++live; }
+  TH(const TH &o) : v(o.v) {
+    if (++copies == throw_at) throw Boom();
+    magic = 0x600DF00Du;
+    ++live;
+  }
+  TH(TH &&o) noexcept : v(o.v), magic(0x600DF00Du) { ++live; }
+  TH &operator=(const TH &o) {
+    if (++copies == throw_at) throw Boom();
+    v = o.v;
+    return *this;
+  }
+  TH &operator=(TH &&o) noexcept { v = o.v; return *this; }
+  ~TH() {
+    if (magic != 0x600DF00Du) { ++bad_dtor; return; }  // destructor run on something that is not a live TH
+    magic = 0xDEADDEADu;
+    --live;
+  }
+  int value() const { return v; }
+  bool operator==(const TH &o) const { return v == o.v; }
+  bool operator<(const TH &o) const { return v < o.v; }
+#if __cplusplus >= 202002L
+  std::strong_ordering operator<=>(const TH &o) const { return v <=> o.v; }
+#endif
+};
+long TH::live = 0, TH::copies = 0, TH::throw_at = -1, TH::bad_dtor = 0;
+inline int val(const TH &v) { return v.value(); }
+
+template <class V, unsigned MAXLEN>
+void throwing_script(const char *tname, Rng &rng, int nops) {
+  typedef typename V::size_type SizeT;
+  g_out += "script throwing<"; g_out += tname; g_out += ">\n";
+  const long live0 = TH::live;
+  {
+    V pool[2];
+    int next_value = 1;
+    for (int i = 0; i < nops; ++i) {
+      V &v = pool[rng.below(2)];
+      V &w = pool[rng.below(2)];
+      const unsigned sz = static_cast<unsigned>(v.size());
+      const unsigned room = MAXLEN - sz;
+      unsigned op = rng.below(10);
+      unsigned pos = rng.below(sz + 1);
+      std::vector<TH> src;
+      unsigned n = rng.below(5);
+      for (unsigned k = 0; k < n; ++k) src.push_back(TH(next_value++));
+      TH x(next_value++);
+      bool threw = false;
+      TH::throw_at = rng.below(3) == 0 ? -1 : TH::copies + 1 + static_cast<long>(rng.below(5));
+      try {
+        switch (op) {
+          case 0: if (room) v.push_back(x); break;
+          case 1: if (room) v.insert(v.begin() + pos, x); break;
+          case 2: if (n <= room) v.insert(v.begin() + pos, static_cast<SizeT>(n), x); break;
+          case 3: if (n <= room) v.insert(v.begin() + pos, src.begin(), src.end()); break;
+          case 4: if (n <= MAXLEN) v.assign(src.begin(), src.end()); break;
+          case 5: if (n <= MAXLEN) v.assign(static_cast<SizeT>(n), x); break;
+          case 6: if (&v != &w) v = w; break;
+          case 7: if (sz + n <= MAXLEN) v.resize(static_cast<SizeT>(sz + n), x); break;
+          case 8: { V c(v); put(" copied=%ld", static_cast<long>(c.size())); break; }
+          case 9: if (sz) v.erase(v.begin() + rng.below(sz)); break;
+        }
+      } catch (const Boom &) {
+        threw = true;
+      }
+      TH::throw_at = -1;
+      put("op %ld threw=%ld", op, threw);
+      put(" bad_dtor=%ld", TH::bad_dtor);
+      // every element object that is alive is either visible in a pool vector or one of the locals (x and src)
+      put(" hidden_live=%ld\n", TH::live - live0 - static_cast<long>(pool[0].size() + pool[1].size()) - 1 - static_cast<long>(src.size()));
+      dump("v", v);
+    }
+  }
+  put("end live=%ld bad_dtor=%ld\n", TH::live - live0, TH::bad_dtor);
+}
+
 // ---------------------------------------------------------------- standard FlatSet API
 template <class FS>
 void flatset_script(const char *tname, Rng &rng, int nops, unsigned maxlen) {
@@ -359,8 +441,8 @@ int main(int argc, char **argv) {
     else if (a == "--outdir") outdir = argv[++i];
   }
   if (!outdir) { fprintf(stderr, "--outdir needed\n"); return 2; }
-  const char *sections[] = {"STD", "STD17", "EXTRAS", "SMALLSET", "FEATURES"};
-  for (int sec = 0; sec < 5; ++sec) {
+  const char *sections[] = {"STD", "STD17", "EXTRAS", "SMALLSET", "FEATURES", "THROW"};
+  for (int sec = 0; sec < 6; ++sec) {
     std::string path = std::string(outdir) + "/" + sections[sec] + ".txt";
     FILE *f = fopen(path.c_str(), "w");
     if (!f) { perror("fopen"); return 2; }
@@ -403,6 +485,12 @@ int main(int argc, char **argv) {
           case 2: smallset_script<amc::SmallSet<P, 2, std::greater<P>, std::allocator<P> > >("P,2,greater", rng, nops); break;
         }
 #endif
+      } else if (sec == 5) {
+        switch (h % 3) {
+          case 0: throwing_script<amc::vector<TH>, 30>("TH", rng, nops); break;
+          case 1: throwing_script<amc::SmallVector<TH, 3>, 30>("TH,3", rng, nops); break;
+          case 2: throwing_script<amc::FixedCapacityVector<TH, 8>, 8>("TH,fixed8", rng, nops); break;
+        }
       } else if (h == from) {
         typedef amc::SmallVector<int, 4> V;
         typedef amc::FlatSet<int> F;
